@@ -784,6 +784,9 @@ func one(c *core.Case, h *handshake, f fault) {
 				if f.Kind == "golden" {
 					c.Count("golden_ok", 1)
 					c.Count("refusal_shapes_failed_closed", 1)
+					if strings.Contains(h.Key, "hdr-") {
+						c.Count("header_refusals_failed_closed", 1)
+					}
 				}
 			default:
 				c.Violate("failopen:"+h.Key+":refusal", "%s (%s): the peer refused / answered wrongly (%s) but the constructor returned error=%v, state %#x; steps %+v", h.Name, h.Role, h.Note, errText, st, r.log.All())
@@ -956,7 +959,7 @@ func Prop() *core.Prop {
 		Run:        runCase,
 		Exhaustive: func(string) bool { return true },
 		Require: []string{"golden_ok", "golden_within_bounds", "fault_runs:eof", "fault_runs:wrbreak", "fault_runs:rdfail", "fault_runs:wrfail",
-			"fault_runs:cancel-silent", "fault_runs:cancel-live", "fault_runs:cancel-blocked", "fault_runs:wrlost", "write_lost:last_write_of_handshake", "fault_runs:cancel-nodl", "fault_runs:precancel", "fault_runs:rdtimeout", "fault_runs:wrtimeout", "parse_errors_of_unusable_features", "cancellations_without_deadlines", "sasl_response_writes_lost", "refusal_shapes_failed_closed", "golden_runs_that_consumed_the_whole_script", "voluntary_restart_handshakes", "cancellations_issued", "cancellations_that_reached_the_deadlines",
+			"fault_runs:cancel-silent", "fault_runs:cancel-live", "fault_runs:cancel-blocked", "fault_runs:wrlost", "write_lost:last_write_of_handshake", "fault_runs:cancel-nodl", "fault_runs:precancel", "fault_runs:rdtimeout", "fault_runs:wrtimeout", "parse_errors_of_unusable_features", "cancellations_without_deadlines", "sasl_response_writes_lost", "refusal_shapes_failed_closed", "header_refusals_failed_closed", "golden_runs_that_consumed_the_whole_script", "voluntary_restart_handshakes", "cancellations_issued", "cancellations_that_reached_the_deadlines",
 			"step_errors_logged", "step_errors_logged:negotiate", "step_errors_logged:list", "step_errors_logged:parse", "failed_steps_with_mask", "failed_closed"},
 		Witnesses: map[string]func(*core.Case){
 			"swallow:voluntary:negotiate":           witness("volfail-init", "golden", 0),
